@@ -100,7 +100,7 @@ def check_en(ctx, c):
         r = e
     y1 = date.today().year
     ctx.ran()
-    path = PathTap.accepted()
+    path = PathTap.accepted(("raw-format", "custom-formats"))
     exps = {iso(x) for x in (expected(d, f, pd, pm, y0), expected(d, f, pd, pm, y1)) if x is not None}
     if not exps:
         return
